@@ -256,6 +256,29 @@ fn gen_simple_font(rng: &mut Rng, idx: u64) -> SimpleFont {
         cmap14,
         ..FontSpec::default()
     };
+    let mut spec = spec;
+    // an OS/2 table whose line metrics differ from hhea's: they take over when USE_TYPO_METRICS (version >= 4) is set or
+    // where hhea holds a zero; the vertical advance and origin of a font without vmtx come from the face's line metrics
+    if rng.chance(1, 3) {
+        spec.os2 = Some(Os2 {
+            version: *rng.pick(&[3u16, 4, 4, 5]),
+            fs_selection: *rng.pick(&[0u16, 0x40, 0x80, 0x80, 0xC0]),
+            typo_ascender: rng.range(0, 1500) as i16,
+            typo_descender: -(rng.range(0, 700) as i16),
+            typo_line_gap: 0,
+            win_ascent: rng.range(0, 1800) as u16,
+            win_descent: rng.range(0, 800) as u16,
+        });
+        match rng.below(6) {
+            0 => spec.ascender = 0,
+            1 => spec.descender = 0,
+            2 => {
+                spec.ascender = 0;
+                spec.descender = 0;
+            }
+            _ => {}
+        }
+    }
     let mut unmapped: Vec<u32> = rest.into_iter().filter(|c| !VS.contains(c)).collect();
     if fmt.is_16bit() {
         unmapped.extend([0xF0000, 0xF0001]);
@@ -384,8 +407,8 @@ fn cmd_simple(args: &[String]) {
         println!(
             "fontdata {} asc={} desc={} hadv={} vadv={} cmap={} cmap14={} hex={}",
             fi,
-            f.spec.ascender,
-            f.spec.descender,
+            f.spec.line_metrics().0,
+            f.spec.line_metrics().1,
             f.spec.hadv.iter().map(|x| x.to_string()).collect::<Vec<_>>().join(","),
             vm,
             list_u32(&f.spec.cmap.iter().map(|(c, g)| (*c, *g as u32)).collect::<Vec<_>>()),
